@@ -11,6 +11,10 @@ import ALV.Lemmas.C19Resample
 import ALV.Lemmas.C19TableOps
 import ALV.Lemmas.C19Obj
 import ALV.Lemmas.C19Float
+import ALV.Lemmas.C19FloatNeg
+import ALV.Lemmas.C19Twins
+import ALV.Lemmas.C19Misc
+import ALV.Lemmas.C19FloatBits
 import Mathlib.Tactic.NormNum
 import ALV.Common.Audit
 
@@ -519,10 +523,323 @@ example : mcG (fieldOps : NumOps Rat) (.num 1) (.num 5) (.num 2) 6 = ([1, 3, 0, 
 example : lineG (fieldOps : NumOps Rat) 0 3 7 false 5 = ([], none) ∧
     lineG (fieldOps : NumOps Rat) 1 3 7 true 5 = ([3], none) := by decide +kernel
 
--- PENDING (not proved here): the mirror image of C19.float.3/4/6 for a negative modulo
-def float_mod_double_range_neg_PENDING : Prop :=
-  ∀ (rnd : K → K), Monotone rnd → ∀ (a m : K), m < 0 → rnd 0 = 0 → rnd m = m →
-    m < fmodR rnd (fmodR rnd a m) m ∧ fmodR rnd (fmodR rnd a m) m ≤ 0
+/-! ### negative modulo: the mirror image (PENDING of round 3, proved) -/
+
+/-- **C19.float.3n** one float reduction `a % m`, `m < 0`, any monotone rounding that fixes `0` and
+`m`: the CLOSED range `[m, 0]`. -/
+theorem float_mod_closed_range_neg (rnd : K → K) (mono : Monotone rnd) (a m : K) (hm : m < 0)
+    (h0 : rnd 0 = 0) (hmm : rnd m = m) : m ≤ fmodR rnd a m ∧ fmodR rnd a m ≤ 0 :=
+  fmodR_closed_range_neg rnd mono a m hm h0 hmm
+
+/-- **C19.float.4n** the double reduction `a % m % m`, `m < 0`: `(m, 0]`. -/
+theorem float_mod_double_range_neg (rnd : K → K) (mono : Monotone rnd) (a m : K) (hm : m < 0)
+    (h0 : rnd 0 = 0) (hmm : rnd m = m) :
+    m < fmodR rnd (fmodR rnd a m) m ∧ fmodR rnd (fmodR rnd a m) m ≤ 0 :=
+  fmodR_double_range_neg rnd mono a m hm h0 hmm
+
+/-- **C19.float.5n** without rounding Python's float `%` is the floored modulo of the exact model
+for EVERY non-zero modulo. -/
+theorem float_mod_exact_any_sign (a m : K) (hm : m ≠ 0) : fmodR id a m = fmod a m := fmodR_id_ne a m hm
+
+/-- **C19.float.6n** the range contract for any float-like number type and a NEGATIVE modulo: every
+output of `modulo_counter(start, m, step)` lies in `(m, 0]`, whatever path, whatever the other
+operations do. -/
+theorem counter_range_any_rounding_neg (o : NumOps K) (rnd : K → K) (mono : Monotone rnd) (m : K)
+    (hm : m < 0) (h0 : rnd 0 = 0) (hmm : rnd m = m) (hmod : ∀ a, o.mod a m = .ok (fmodR rnd a m))
+    (A S : Arg K) (n : Nat) : ∀ x ∈ (mcG o A (.num m) S n).1, m < x ∧ x ≤ 0 := by
+  intro x hx
+  obtain ⟨y, m', hm', e⟩ := mcG_double o A (.num m) S n x hx
+  simp only [Arg.vals, List.mem_singleton] at hm'
+  subst hm'
+  simp only [mod2G, hmod, Except.ok.injEq] at e
+  rw [← e]
+  exact fmodR_double_range_neg rnd mono y m' hm h0 hmm
+
+-- the closed end `m` IS reached by one reduction with a negative modulo, the second one removes it
+example : fmodR rndQuarter (1/100 : Rat) (-5) = -5 ∧
+    fmodR rndQuarter (fmodR rndQuarter (1/100 : Rat) (-5)) (-5) = 0 := by decide +kernel
+example : fmodR id (1/100 : Rat) (-5) = -499/100 ∧ fmod (1/100 : Rat) (-5) = -499/100 := by decide +kernel
+
+/-! ### the remaining generic twins over the exact operations: `adsr`, `attack`, `TableLookup` -/
+
+/-- **C19.float.9** `adsr` as coded today (`m = num / t if t != 0 else 0.`: an empty segment needs
+no slope) over the exact operations is the envelope of the property for all non-negative attack,
+decay and release times, ZERO INCLUDED (C19.adsr.3 is repaired): segments of
+`⌊a+½⌋`, `⌊d+½⌋`, `⌊dur+½⌋ - ⌊a+½⌋ - ⌊d+½⌋ - ⌊r+½⌋` (sustain; none if negative), `⌊r+½⌋` samples —
+each time rounded separately —, read through `n` samples; nothing is raised. -/
+theorem generic_adsr_eq_spec (dur a d s r : K) (n : Nat) (ha : 0 ≤ a) (hd : 0 ≤ d) (hr : 0 ≤ r) :
+    adsrG fieldOps dur a d s r n = ((adsrSpec dur a d s r).take n, none) :=
+  adsrG_field dur a d s r n ha hd hr
+
+/-- **C19.float.9b** twin: wherever the unguarded model `adsr` of C19.adsr.1 yields samples (no zero
+time; any sign), the generic definition yields the same ones. -/
+theorem generic_adsr_is_model (dur a d s r : K) (n : Nat) (ha : a ≠ 0) (hd : d ≠ 0) (hr : r ≠ 0) :
+    ∃ xs, adsr dur a d s r = .ok xs ∧ adsrG fieldOps dur a d s r n = (xs.take n, none) :=
+  adsrG_field_eq_adsr dur a d s r n ha hd hr
+
+/-- **C19.adsr.4** the documented durations, segment by segment: the envelope of the property is the
+concatenation of the attack line `i/a` (`⌊a+½⌋` samples), the decay line `1 + i·(s-1)/d`
+(`⌊d+½⌋`), the sustain level (`⌊dur+½⌋ - ⌊a+½⌋ - ⌊d+½⌋ - ⌊r+½⌋`, none if that is negative) and the
+release line `s - i·s/r` (`⌊r+½⌋`). -/
+theorem adsr_spec_segments (dur a d s r : K) :
+    adsrSpec dur a d s r
+      = ((List.range (durLen a)).map fun (i : Nat) => ((i : ℤ) : K) * (1 / a))
+        ++ ((List.range (durLen d)).map fun (i : Nat) => 1 + ((i : ℤ) : K) * ((s - 1) / d))
+        ++ List.replicate (durLen dur - durLen a - durLen d - durLen r) s
+        ++ ((List.range (durLen r)).map fun (i : Nat) => s + ((i : ℤ) : K) * ((-s * 1) / r)) :=
+  (adsr_segments dur a d s r _ _ _ (fun _ => rfl) (fun _ => rfl) (fun _ => rfl)).symm
+
+/-- **C19.float.10** `attack` as coded today over the exact operations is the specification for
+EVERY attack and decay time (zero and negative included: an empty segment needs no slope), for a
+number … -/
+theorem generic_attack_number_eq_spec (a d x : K) (n : Nat) :
+    attackG fieldOps a d (.num x) n = (attackSpec a d x (List.replicate n x) n, none) :=
+  attackG_field_num a d x n
+
+/-- … and for an iterable sustain (first item = level of the decay line, the others follow). -/
+theorem generic_attack_stream_eq_spec (a d x : K) (xs : List K) (n : Nat) :
+    attackG fieldOps a d (.strm (x :: xs)) n = (attackSpec a d x xs n, none) :=
+  attackG_field_strm a d x xs n
+
+/-- **C19.float.10b** twin: wherever the unguarded model `attack` is defined it is the generic one. -/
+theorem generic_attack_is_model (a d : K) (s : Arg K) (n : Nat) (ha : a ≠ 0) (hd : d ≠ 0) :
+    attackG fieldOps a d s n = match attack a d s n with
+      | .ok xs => (xs, none)
+      | .error e => ([], some e) := attackG_field_eq_attack a d s n ha hd
+
+/-- **C19.float.11** the guarded slope of today's code. -/
+theorem generic_slope (num t : K) : slopeG fieldOps num t = if t = 0 then 0 else num / t :=
+  slopeG_field num t
+
+/-- **C19.float.12** one oscillator sample, generic twin over the exact operations = the model's
+`lookupAt` (`none` ↔ IndexError). -/
+theorem generic_lookup_is_model (tbl : List K) (idx : K) :
+    lookupAtG fieldOps tbl idx = match lookupAt tbl idx with
+      | some v => .ok v
+      | none => .error "IndexError" := lookupAtG_field tbl idx
+
+/-- **C19.float.13** `TableLookup(tbl, cycles)(freq, phase)`, generic twin over the exact operations:
+the samples are the cyclic linear interpolation of the table at the unreduced positions
+(C19.table.1), nothing is raised, and the table positions are the outputs of the model's counter. -/
+theorem generic_table_lookup_eq_spec (tbl : List K) (h : tbl ≠ []) (den : K) (freq phase : Arg K) (n : Nat) :
+    tableCallG fieldOps tbl den freq phase n
+      = ((tableSpec tbl den freq phase n, none),
+         moduloCounter (phase.map ((((tbl.length : Int) : K) / den) * ·)) (.num ((tbl.length : Int) : K))
+           (freq.map ((((tbl.length : Int) : K) / den) * ·)) n) :=
+  tableCallG_field tbl h den freq phase n
+
+/-- **C19.float.14** a lazily mapped stream (`Stream.map` over the counter): as long as no sample
+fails it is the mapped list; the first failing sample ends it with that exception and what was
+yielded before stays. -/
+theorem lazy_map_stops_at_first_error {α β : Type} (f : α → Except String β) (xs : List α) (x : α)
+    (zs : List α) (e : Option String) (err : String) (ys : List β)
+    (hok : List.Forall₂ (fun a b => f a = .ok b) xs ys) (hx : f x = .error err) :
+    mapRun f (xs ++ x :: zs) e = (ys, some err) := mapRun_error f xs x zs e err ys hok hx
+
+/-- **C19.float.15** the path labels: over the exact operations the generic label is the model's … -/
+theorem generic_branch_is_model (A M S : Arg K) : mcBranchG fieldOps A M S = mcBranch A M S :=
+  mcBranchG_field A M S
+
+/-- … which is one of the twelve paths (eight argument-kind branches; `step == 0` / batched / plain
+for the two with a number as modulo and as step) … -/
+theorem counter_branch_exhaustive (A M S : Arg K) : mcBranch A M S ∈ branchLabels := mcBranch_mem A M S
+
+/-- … and `fast` means what it says: the label is `fast` exactly when `step ≠ 0` and
+`int(modulo/step) > 1`, and then the model runs the steps-batched loop (whose outputs are those of
+every other path by C19.mc.1/2). -/
+theorem counter_fast_path_iff (a m s : K) (n : Nat) :
+    (mcBranch (.num a) (.num m) (.num s) = "---:fast" ↔ s ≠ 0 ∧ 1 < pyInt (m / s)) ∧
+    (mcBranch (.num a) (.num m) (.num s) = "---:fast" →
+      moduloCounter (.num a) (.num m) (.num s) n = fastN m s (pyInt (m / s)) n a 0) :=
+  ⟨mcBranch_num_fast a m s, fun h => moduloCounter_num_fast a m s n ((mcBranch_num_fast a m s).mp h)⟩
+
+theorem counter_fast_path_stream_iff (ps : List K) (m s : K) (n : Nat) :
+    (mcBranch (.strm ps) (.num m) (.num s) = "P--:fast" ↔ s ≠ 0 ∧ 1 < pyInt (m / s)) ∧
+    (mcBranch (.strm ps) (.num m) (.num s) = "P--:fast" →
+      moduloCounter (.strm ps) (.num m) (.num s) n = (fastP m s (pyInt (m / s)) 0 0 0 ps).take n) :=
+  ⟨mcBranch_strm_fast ps m s, fun h => moduloCounter_strm_fast ps m s n ((mcBranch_strm_fast ps m s).mp h)⟩
+
+/-- **C19.mc.7** where Python raises ZeroDivisionError: at the first zero among the modulo values
+the counter gets to use (`none`: no zero among them). -/
+theorem counter_zero_modulo_position (A M S : Arg K) (n : Nat) :
+    mcZeroAt A M S n = ((M.expand n).take (moduloCounter A M S n).length).findIdx? (· = 0) :=
+  mcZeroAt_eq A M S n
+
+/-- **C19.noise.2** number of samples of `white_noise(dur)` / `gauss_noise(dur)` among `n` reads:
+endless without a duration, `⌊dur + 1/2⌋` otherwise. -/
+theorem noise_length (dur : Option K) (n : Nat) :
+    noiseLen dur n = match dur with
+      | none => n
+      | some d => min n (durLen d) := noiseLen_eq dur n
+
+/-- **C19.res.6** the hypothesis `order/2 + 1 ≤ len` of C19.res.1/2 is exactly `resShort = false`,
+and on a shorter input the specification has no output at all (the window of output 0 already
+reaches past the last input sample): resample ends when its input does — at once. -/
+theorem resample_short_input (xs : List K) (step : Arg K) (order : Nat) (zero : K) (n : Nat) :
+    (resShort xs order = false ↔ order / 2 + 1 ≤ xs.length) ∧
+    (resShort xs order = true → resampleSpec xs step order zero n = ([], true)) :=
+  ⟨resShort_iff xs order, resampleSpec_short xs step order zero n⟩
+
+example : adsrG (fieldOps : NumOps Rat) (21/2) 0 2 (1/2) 3 20
+    = ([1, 3/4, 1/2, 1/2, 1/2, 1/2, 1/2, 1/2, 1/2, 1/3, 1/6], none) := by decide +kernel
+example : (0 : Rat) ≤ 0 ∧ adsrSpec (21/2 : Rat) 0 2 (1/2) 3
+    = [1, 3/4, 1/2, 1/2, 1/2, 1/2, 1/2, 1/2, 1/2, 1/3, 1/6] := by decide +kernel
+-- each time is rounded separately: 5/2 → 3, 5/2 → 3, 3/2 → 2 and the total 21/2 → 11 leave 3 sustain samples
+example : adsrSpec (21/2 : Rat) (5/2) (5/2) (1/2) (3/2)
+    = [0, 2/5, 4/5, 1, 4/5, 3/5, 1/2, 1/2, 1/2, 1/2, 1/6] := by decide +kernel
+-- the hypothesis `0 ≤ a` of C19.float.9 is forced: a negative time lengthens the sustain in the code
+example : (adsrG (fieldOps : NumOps Rat) 10 (-3) 2 (1/2) 2 99).1.length = 12 ∧
+    (adsrSpec (10 : Rat) (-3) 2 (1/2) 2).length = 10 := by decide +kernel
+example : attackG (fieldOps : NumOps Rat) 0 2 (.strm [1/2, 7, 8]) 9 = ([1, 3/4, 7, 8], none) := by decide +kernel
+example : tableCallG (fieldOps : NumOps Rat) [0, 10, 20, 30] 1 (.num (3/8)) (.num (1/2)) 4
+    = (([20, 15, 10, 25], none), [2, 7/2, 1, 5/2]) := by decide +kernel
+example : mapRun (fun x : Nat => if x < 3 then Except.ok (x + 1) else .error "IndexError") [0, 1, 5, 2] none
+    = ([1, 2], some "IndexError") := by decide +kernel
+example : mcZeroAt (.strm [(1:Rat), 2, 3]) (.strm [5, 0, 0, 0]) (.num 1) 9 = some 1 := by decide +kernel
+example : resShort [(1 : Rat)] 3 = true ∧ resampleSpec [(1 : Rat)] (.num (1/2)) 3 0 5 = ([], true) := by decide +kernel
+
+/-! ## the bit-level float helpers, as far as they can be proved without a theory of IEEE arithmetic
+
+`floatOps` builds `%`, `int()`, `math.ceil` from the bit pattern: `fDecode x = (sign, m, e)` with
+exact value `tval sign m e = ± m·2^e`, then INTEGER arithmetic on the triple, then `fExact` back.
+Proved here, over ℚ (any ordered field with a floor): the integer arithmetic computes truncation,
+ceiling and the C `fmod` remainder of the exact values; `float_rem` (written once, `pyModGen`) is
+`fmodR` on exact values, i.e. the floored modulo when the one addition is not rounded.
+TRUSTED (tied bit for bit on every float case, not proved): `fDecode` reads sign / exponent /
+fraction fields of `Float.toBits` correctly; `fExact` (`Float.ofNat`, `Float.scaleB` on a value
+with ≤ 53 significant bits) returns the float with that exact value; Lean's `Float` `==`, `<` are
+the comparisons of the exact values and `+` is the IEEE round-to-nearest-even sum — a monotone
+rounding fixing `0` and `m`, which is what C19.float.3/4/3n/4n ask of `rnd`. -/
+
+/-- **C19.bits.1** `fAbsTrunc m e` = (⌊m·2^e⌋, "m·2^e is an integer"). -/
+theorem float_abs_trunc (m : Nat) (e : Int) :
+    (((fAbsTrunc m e).1 : Nat) : Int) = ⌊(aval m e : K)⌋ ∧
+    ((fAbsTrunc m e).2 = true ↔ ((⌊(aval m e : K)⌋ : Int) : K) = aval m e) :=
+  ⟨fAbsTrunc_fst m e, fAbsTrunc_snd m e⟩
+
+/-- **C19.bits.2** `int(x)` of a float: OverflowError / ValueError for inf / nan (`fNonFinite`),
+otherwise the truncation toward zero (the exact model's `pyInt`) of the exact value. -/
+theorem float_trunc_on_decoded (x : Float) :
+    fTrunc x = match fDecode x with
+      | none => fNonFinite x
+      | some (neg, m, e) => .ok (pyInt (tval neg m e : ℚ)) := by
+  cases h : fDecode x with
+  | none => simp only [fTrunc, h]
+  | some t =>
+    obtain ⟨neg, m, e⟩ := t
+    simp only [fTrunc, h]
+    rw [truncT_eq (K := ℚ)]
+    rfl
+
+/-- **C19.bits.3** `math.ceil(x)` of a float: the ceiling (the model's `pyCeil`) of the exact value. -/
+theorem float_ceil_on_decoded (x : Float) :
+    fCeil x = match fDecode x with
+      | none => fNonFinite x
+      | some (neg, m, e) => .ok (pyCeil (tval neg m e : ℚ)) := by
+  cases h : fDecode x with
+  | none => simp only [fCeil, h]
+  | some t =>
+    obtain ⟨neg, m, e⟩ := t
+    simp only [fCeil, h]
+    rw [ceilT_eq (K := ℚ)]
+    rfl
+
+/-- **C19.bits.4** C `fmod(x, y)` of two finite floats, `y ≠ 0`: the float that `fExact` builds from
+sign, mantissa and exponent of EXACTLY `x - trunc(x/y)·y` (no rounding: the remainder is computed
+in integers on the common exponent). -/
+theorem c_fmod_on_decoded (x y : Float) :
+    match fDecode x, fDecode y with
+    | some (nx, mx, ex), some (ny, my, ey) =>
+      my ≠ 0 → cFmod x y = fExact nx (fmodT mx ex my ey).1 (fmodT mx ex my ey).2 ∧
+        (tval nx (fmodT mx ex my ey).1 (fmodT mx ex my ey).2 : ℚ)
+          = cRemM (tval nx mx ex) (tval ny my ey)
+    | _, _ => True := by
+  cases hx : fDecode x with
+  | none => trivial
+  | some tx =>
+    cases hy : fDecode y with
+    | none => trivial
+    | some ty =>
+      obtain ⟨nx, mx, ex⟩ := tx
+      obtain ⟨ny, my, ey⟩ := ty
+      intro hmy
+      refine ⟨?_, fmodT_value nx ny mx my ex ey⟩
+      simp [cFmod, hx, hy, hmy]
+
+/-- **C19.bits.5** that remainder on exact values: `a - n·m` for an integer `n`, smaller than the
+divisor in absolute value, with the sign of the dividend. -/
+theorem c_fmod_exact (a m : K) (hm : m ≠ 0) :
+    (∃ n : Int, cRemM a m = a - (n : K) * m) ∧ |cRemM a m| < |m| ∧
+    (0 ≤ a → 0 ≤ cRemM a m) ∧ (a ≤ 0 → cRemM a m ≤ 0) := cRemM_props a m hm
+
+/-- **C19.bits.6** Python's float `%` is `float_rem` written once over the operations it uses
+(`pyModGen`), run on binary64 … -/
+theorem float_rem_is_generic (x y : Float) : pyModF x y = pyModGen floatModOps x y := rfl
+
+/-- … and the SAME code over exact values whose one addition is followed by `rnd` is `fmodR rnd` —
+the function of C19.float.3–6 —, hence the sign-adjusted remainder in `[0, m)` resp. `(m, 0]`,
+namely the floored modulo of the exact model, before that final rounding (`rnd = id`);
+a zero divisor raises ZeroDivisionError. -/
+theorem float_rem_exact_instance (rnd : K → K) (a m : K) (hm : m ≠ 0) :
+    pyModGen (exactModOps rnd) a m = .ok (fmodR rnd a m) ∧
+    pyModGen (exactModOps (id : K → K)) a m = .ok (fmod a m) := by
+  simp only [pyModGen_exact, if_neg hm, fmodR_id_ne a m hm, and_self]
+
+theorem float_rem_zero_divisor (rnd : K → K) (a : K) :
+    pyModGen (exactModOps rnd) a 0 = .error "ZeroDivisionError" := by
+  rw [pyModGen_exact, if_pos rfl]
+
+/-- **C19.bits.7** renormalising a mantissa (`fExact` strips trailing zero bits) keeps the value. -/
+theorem float_renormalise_keeps_value (f n : Nat) (k : Int) :
+    (aval (stripZeros f n k).1 (stripZeros f n k).2 : K) = aval n k := stripZeros_value f n k
+
+/-- **C19.bits.8** C19.float.2 instantiated at the operations the float tie runs: every float
+output of every path of `modulo_counter` is `y % m % m` with Python's float `%`. -/
+theorem float_counter_outputs_double_reduced (A M S : Arg Float) (n : Nat) :
+    ∀ x ∈ (mcG floatOps A M S n).1, ∃ y, ∃ m ∈ Arg.vals M, mod2G floatOps y m = .ok x :=
+  mcG_double floatOps A M S n
+
+-- 5·2^-1 = 2.5: truncates to 2 (inexact), -2.5 truncates to -2, ceil(2.5) = 3, ceil(-2.5) = -2
+example : fAbsTrunc 5 (-1) = (2, false) ∧ truncT true 5 (-1) = -2 ∧ ceilT false 5 (-1) = 3 ∧
+    ceilT true 5 (-1) = -2 ∧ fAbsTrunc 5 3 = (40, true) := by decide +kernel
+-- fmod(7·2^0, 1·2^1) = 1·2^0; fmod(5·2^-1, 3·2^-2) = 1·2^-2 (2.5 = 3·0.75 + 0.25)
+example : fmodT 7 0 1 1 = (1, 0) ∧ fmodT 5 (-1) 3 (-2) = (1, -2) := by decide +kernel
+example : (tval true 1 (-2) : ℚ) = -1/4 ∧ cRemM (-5/2 : ℚ) (3/4) = -1/4 := by
+  refine ⟨by norm_num [tval, aval], by decide +kernel⟩
+example : pyModGen (exactModOps rndQuarter) (-1/100 : Rat) 5 = .ok 5 ∧
+    pyModGen (exactModOps (id : Rat → Rat)) (-1/100) 5 = .ok (499/100) := by decide +kernel
+example : stripZeros 6 40 (-3) = (5, 0) := by decide +kernel
+
+/-! ### D28: the batch size is computed only when modulo and step are numbers
+
+`steps = int(modulo / step)` sits in the two branches whose modulo and step are numbers.  If that
+conversion raises (binary64: `modulo / step` overflows to `inf` for finite arguments such as
+`modulo_counter(0., 16., 2.**-1022)` or `(0., 1e300, 1e-10)`; `int(inf)` is an OverflowError), the
+call raises at its first read, while the SAME call with `Stream(step)` never computes a batch size
+and yields the counter: "identically whether its arguments are numbers or streams" fails there.
+For any number operations: -/
+
+/-- **C19.float.16** (known finding D28) whatever the number operations, a failing `int(modulo/step)`
+ends the all-numbers call (and the one with only `start` iterable) before its first output, while
+with the step given as a stream the first output is `start % modulo % modulo` as always. -/
+theorem counter_batch_size_error_numbers_only {α : Type} (o : NumOps α) (a m s : α) (ps ss : List α)
+    (n : Nat) (e : String) (hs : o.isZero s = false) (he : o.trunc (o.div m s) = .error e) :
+    mcG o (.num a) (.num m) (.num s) n = ([], some e) ∧
+    mcG o (.strm ps) (.num m) (.num s) n = ([], some e) ∧
+    ∀ c, mod2G o a m = .ok c → (mcG o (.num a) (.num m) (.strm (s :: ss)) (n + 1)).1.head? = some c := by
+  refine ⟨by simp [mcG, hs, he], by simp [mcG, hs, he], ?_⟩
+  intro c hc
+  simp [mcG, gS, hc, rcons]
+
+/-- exact operations whose `int()` refuses values beyond ±1000 (a toy overflow) -/
+def overflowOps : NumOps Rat :=
+  { (fieldOps : NumOps Rat) with
+    trunc := fun x => if 1000 < x ∨ x < -1000 then .error "OverflowError" else .ok (pyInt x) }
+
+example : overflowOps.isZero (1/1000) = false ∧ overflowOps.trunc (overflowOps.div 16 (1/1000)) = .error "OverflowError" ∧
+    mcG overflowOps (.num 0) (.num 16) (.num (1/1000)) 3 = ([], some "OverflowError") ∧
+    mcG overflowOps (.num 0) (.num 16) (.strm [1/1000, 1/1000, 1/1000]) 3 = ([0, 1/1000, 1/500], none) := by
+  decide +kernel
 
 end ALV.Props.C19
 
